@@ -50,6 +50,12 @@ fn later_use(mode: u8, data: &[u8], ctx: Ctx, j: usize, k: usize) -> Option<Stri
     }
     let cap = captured?;
     let bytes = cap.as_slice().to_vec();
+    // a captured value remembers the mode it was captured in, also through into_builder / extend / freeze
+    if captured_mode(&cap) != mode { return Some("captured-value-forgets-its-mode".into()) }
+    { let rebuilt = cap.clone().into_builder().freeze();
+      if captured_mode(&rebuilt) != mode || rebuilt.as_slice() != bytes.as_slice() { return Some("rebuilt-captured-value-differs".into()) }
+      let mut b = cap.clone().into_builder(); b.extend(&cap); let twice = b.freeze();
+      if captured_mode(&twice) != mode || twice.as_slice() != [bytes.as_slice(), bytes.as_slice()].concat().as_slice() { return Some("extended-captured-value-differs".into()) } }
     // full decode later = decoding in place
     let mut later: Vec<i128> = Vec::new();
     if cap.clone().decode(|c| exec(&body, c, &mut later)).is_err() { return Some("later-decode-fails".into()) }
@@ -76,6 +82,16 @@ fn later_use(mode: u8, data: &[u8], ctx: Ctx, j: usize, k: usize) -> Option<Stri
     if w != bytes || cap.encoded_len(mode_of(mode)) != bytes.len() { return Some("reencode-differs".into()) }
     if let Some(what) = awkward_targets(&bytes, 1 + bytes.len() % 4, &|t| { let mut t = t; cap.write_encoded(mode_of(mode), &mut t) }) { return Some(format!("reencode: {}", what)) }
     None
+}
+
+/// The mode a captured value carries, observed through the documented assertion of its encoder:
+/// it can be written in its own mode and in BER only.
+pub fn captured_mode(c: &bcder::Captured) -> u8 {
+    use bcder::encode::Values;
+    if catch(|| c.encoded_len(bcder::Mode::Der)).is_some() && catch(|| c.encoded_len(bcder::Mode::Cer)).is_none() { 2 }
+    else if catch(|| c.encoded_len(bcder::Mode::Cer)).is_some() && catch(|| c.encoded_len(bcder::Mode::Der)).is_none() { 1 }
+    else if catch(|| c.encoded_len(bcder::Mode::Der)).is_none() && catch(|| c.encoded_len(bcder::Mode::Cer)).is_none() { 0 }
+    else { 9 }
 }
 
 pub fn run(em: &mut Emitter, rng: &mut Rng, thorough: bool) {
